@@ -168,6 +168,22 @@ def replay_coll(recs):
         qc = g.QuadricCollection(np.array([r["r"]["M"] for r in recs]), normalize_matrix=True)
         comps = qc.components
         a, b = np.asarray(comps[0].array), np.asarray(comps[1].array)
+        # the same collection with two axes (2 x n/2)
+        n2 = (len(recs) // 2) * 2
+        if n2 >= 4:
+            M2 = np.array([r["r"]["M"] for r in recs[:n2]])
+            c2 = g.QuadricCollection(M2.reshape((2, n2 // 2) + M2.shape[1:]), normalize_matrix=True).components
+            a2, b2 = np.asarray(c2[0].array), np.asarray(c2[1].array)
+            if a2.shape[:2] != (2, n2 // 2):
+                out.append(dict(site="QuadricCollection.components/two-axes", stratum="pair", case={"count": n2}, expected={"shape": [2, n2 // 2]}, observed={"shape": list(a2.shape)}))
+            else:
+                a2, b2 = a2.reshape((n2,) + a2.shape[2:]), b2.reshape((n2,) + b2.shape[2:])
+                for i, r in enumerate(recs[:n2]):
+                    e0, e1 = np.array(r["r"]["g"]), np.array(r["r"]["h"])
+                    if not ((same_class(a2[i], e0) and same_class(b2[i], e1)) or (same_class(a2[i], e1) and same_class(b2[i], e0))):
+                        out.append(dict(site="QuadricCollection.components/two-axes", stratum=r["s"], case={"g": r["r"]["g"], "h": r["r"]["h"], "position": [i // (n2 // 2), i % (n2 // 2)]},
+                                        expected=[r["r"]["g"], r["r"]["h"]], observed=[str(a2[i].tolist()), str(b2[i].tolist())]))
+                        break
         for i, r in enumerate(recs):
             e0, e1 = np.array(r["r"]["g"]), np.array(r["r"]["h"])
             ok = (same_class(a[i], e0) and same_class(b[i], e1)) or (same_class(a[i], e1) and same_class(b[i], e0))
